@@ -24,11 +24,24 @@
        never a panic, and never out of fuel (blocks_never_panic).  Tied to the code by the C01/blocks
        correspondence (tools/props/c01.py: element stream and verdict bits observed on the implementation,
        outcome class of the model == outcome class of parse()).
+   (3) Between the two: model/PegTree.v reads the same evaluator as a pair TREE (what `into_inner()` walks)
+       and proofs/TreeProofs.v shows that its pre-order flattening is the pair stream of (1), that a static
+       analysis of any grammar bounds the number and the rules of every pair's children position by position
+       (children_analysis_sound), and, for liquid's grammar, that every pair anywhere in any parse tree has
+       the children parser.rs takes for granted at its `.next().expect(..)` / `unreachable!()` /
+       `panic!("Expected ..")` sites (children_as_expected: Tag -> [TagInner], TagInner -> Identifier then tag
+       tokens, Expression -> [ExpressionInner] -> [FilterChain], FilterChain -> Value then Filters,
+       Filter -> Identifier then arguments, KeywordFilterArgument -> [Identifier; Value],
+       PositionalFilterArgument -> [Value], Value -> [Literal | Variable], Literal -> exactly one of the seven
+       literal rules, Variable -> Identifier then Identifier | Value, Range -> [Value; Value]); the top of
+       the tree is one LaxLiquidFile pair whose children are elements followed by exactly one EOI
+       (lax_tree_shape), which is the stream (2) quantifies over; parse_total_composed states (1)+(2)
+       together for every text.
    PARTIAL in this sense: the argument parsers of the individual tags (TagTokenIter, expect_*,
    parse_condition, the for/tablerow/cycle/include argument grammars) and the filter-chain construction
    are not modelled; their panic freedom is explored by the enumeration of tools/props/c01.py
    (catch_unwind, exit status, time limit), not proved. *)
-From LV Require Import Base Peg Grammar PegProofs PegTotal BlockParse BlockProofs.
+From LV Require Import Base Peg PegTree Grammar PegProofs PegTotal BlockParse BlockProofs TreeProofs TreeShape.
 
 
 Theorem lax_grammar_never_rejects : forall fuel s,
@@ -78,6 +91,49 @@ Theorem blocks_invariant : forall n,
   (forall k b, lok n (else_loop n k b)) /\ lok n (case_loop n) /\ lok n (comment_loop n).
 Proof. exact BlockProofs.blocks_inv. Qed.
 
+(* the pair tree and the pair stream are the same object *)
+Theorem pair_tree_flattens_to_pair_stream : forall f start s,
+  parse liquid_grammar liquid_ws f start s = flat_res (parse_tree liquid_grammar liquid_ws f start s).
+Proof. exact TreeShape.parse_tree_flat. Qed.
+(* the children analysis is sound for every grammar, rule, mode and text *)
+Theorem children_analysis_sound : forall g ws f at_ e s pos s' p' F, evf g ws f at_ false e s pos = Some (Some (s', p', F)) ->
+  forall K A, abs g K at_ e = Some A -> sat A (roots F).
+Proof. exact TreeProofs.abs_sound. Qed.
+(* every pair, at any depth of any parse tree of liquid's grammar, has the children parser.rs expects *)
+Theorem children_as_expected : forall f start s rest p F t k cs,
+  parse_tree liquid_grammar liquid_ws f start s = Some (Some (rest, p, F)) ->
+  In t F -> within (TNode k cs) t -> children_spec (t_rule k) (roots cs).
+Proof. exact TreeShape.children_as_expected. Qed.
+Theorem lax_tree_shape : forall f s rest p F,
+  parse_tree liquid_grammar liquid_ws f r_LaxLiquidFile s = Some (Some (rest, p, F)) ->
+  exists body, F = [TNode (mkTok r_LaxLiquidFile 0 p) (body ++ [TNode (mkTok eoi_id p p) []])] /\
+               Forall (fun t => In (root t) [r_Expression; r_Tag; r_Raw; r_InvalidLiquid]) body.
+Proof. exact TreeShape.lax_tree_shape. Qed.
+(* grammar and block machinery together, for every text: the parse finishes with one tree, its elements end
+   with the only EOI, and whatever the tags are and whatever their argument parsers answer, the block
+   machinery returns a template or an error *)
+Theorem parse_total_composed : forall s, exists f, forall f', f <= f' ->
+  exists p body,
+    parse_tree liquid_grammar liquid_ws f' r_LaxLiquidFile s =
+      Some (Some ([], p, [TNode (mkTok r_LaxLiquidFile 0 p) (body ++ [TNode (mkTok eoi_id p p) []])])) /\
+    Forall (fun t => In (root t) [r_Expression; r_Tag; r_Raw; r_InvalidLiquid]) body /\
+    forall alpha, faithful alpha ->
+      parse_elements (map alpha (body ++ [TNode (mkTok eoi_id p p) []])) = POk \/
+      parse_elements (map alpha (body ++ [TNode (mkTok eoi_id p p) []])) = PErr.
+Proof. exact TreeShape.parse_total_composed. Qed.
+
+(* non-vacuity of the tree theorems: the tree of {{ a.b | f: 1, k: 'v' }}{% if (1..2) %} has the nodes in question *)
+Example tree_nonvacuous :
+  match parse_tree liquid_grammar liquid_ws 400 r_LaxLiquidFile
+          [123;123;32;97;46;98;32;124;32;102;58;32;49;44;32;107;58;32;39;118;39;32;125;125;123;37;32;105;102;32;40;49;46;46;50;41;32;37;125]%N with
+  | Some (Some ([], _, [TNode _ cs])) =>
+      roots cs = [r_Expression; r_Tag; eoi_id] /\
+      (forall n, In n [r_Variable; r_Filter; r_KeywordFilterArgument; r_PositionalFilterArgument; r_Literal; r_Range; r_TagInner] ->
+                 existsb (fun t => Nat.eqb (t_rule t) n) (flats cs) = true)
+  | _ => False
+  end.
+Proof. vm_compute. split; [reflexivity|]. intros n H. repeat (destruct H as [<-|H]; [reflexivity|]). destruct H. Qed.
+
 (* non-vacuity of the block theorem: streams on which the pinned code panicked
    ({% comment %}{% if x %} ; {% comment %}{% raw %}{% endcomment %} ; an invalid token in a block in a comment)
    are errors / templates here, and an unclosed block is an error *)
@@ -112,3 +168,8 @@ Print Assumptions lax_parse_total.
 Print Assumptions every_rule_terminates.
 Print Assumptions blocks_never_panic.
 Print Assumptions blocks_invariant.
+Print Assumptions pair_tree_flattens_to_pair_stream.
+Print Assumptions children_analysis_sound.
+Print Assumptions children_as_expected.
+Print Assumptions lax_tree_shape.
+Print Assumptions parse_total_composed.
